@@ -18,13 +18,15 @@ TECHNIQUE = 'differential monitor: same logical content under per-segment byte-o
 RULE = ('logical files from vlib.model.gen_file and vlib.daqmx.gen_daqmx; non-trivial = file with >=1 big-endian segment holding data; '
         'distinct = per-segment signatures with the byte-order vector')
 ASSUMPTIONS = ['the toc mask itself is always little-endian (NI format description)']
-REQUIRED = ['pairs_compared', 'big_endian_segments_with_data', 'mixed_order_files', 'daqmx_pairs', 'lazy_compared']
+REQUIRED = ['block_size_files', 'pairs_compared', 'big_endian_segments_with_data', 'mixed_order_files', 'daqmx_pairs', 'lazy_compared']
 N = {'quick': 4000, 'thorough': 500000}
 
 
 def gen_cases(tier, seed):
     for i in range(N[tier]):
         yield {'fam': 'daqmx' if i % 5 == 4 else 'model', 's': seed * 1000003 + i}
+    for i in range(max(10, N[tier] // 100)):
+        yield {'fam': 'blocks', 's': seed * 1000003 + i}
 
 
 def shard_setup(ctx):
@@ -56,8 +58,20 @@ def snap_all(blob, daq=None):
 def run_case(case, ctx):
     rng = random.Random('c15/%s/%d' % (case['fam'], case['s']))
     ctx.evaluation()
-    if case['fam'] == 'model':
-        segs = M.gen_file(rng, max_segs=6, max_chans=5)
+    if case['fam'] in ('model', 'blocks'):
+        if case['fam'] == 'blocks':
+            # chunk lengths at and around powers of two (block-wise byte-order conversion): 32768, 65535..65537, 131072 values
+            nv = [32768, 65535, 65536, 65537, 131072, 65536, 2 * 65536 + 1][case['s'] % 7]
+            t1, t2 = rng.choice(['f64', 'i32', 'i16', 'u64']), rng.choice(['f32', 'i64', 'u16'])
+            inter_ = rng.random() < 0.3
+
+            def vfb(p, t, k):
+                return ((np.arange(k, dtype='i8') * 2654435761) % 65521).astype(M.TYPES[t][1])
+            segs = M.build_file(rng, [('g', 'a', t1, nv, []), ('g', 'b', t2, nv if inter_ else rng.choice([3, nv]), [])], nseg=1,
+                                nchunks=(rng.choice([1, 1, 2]),), values_fn=vfb, inter=inter_)
+            ctx.count('block_size_files')
+        else:
+            segs = M.gen_file(rng, max_segs=6, max_chans=5)
         n = len(segs)
         variants = {'little': ['<'] * n, 'big': ['>'] * n, 'mixed': [rng.choice('<>') for _ in range(n)]}
         encs = {k: M.encode_file(segs, endian=v)[0] for k, v in variants.items()}
